@@ -76,8 +76,15 @@ static int _GD_SampIndDiscardHeader(FILE *stream)
   dtrace("%p", stream);
 
   if (fread(header, HEADSIZE, 1, stream) < 1) {
-    dreturn("%i", -1);
-    return -1;
+    if (ferror(stream)) {
+      dreturn("%i", -1);
+      return -1;
+    }
+
+    /* a file too short to hold a header (e.g. an empty one) has none */
+    rewind(stream);
+    dreturn("%i", 0);
+    return 0;
   }
 
   /* Check for magic */
